@@ -533,6 +533,13 @@ func (c *compiler) compileBind(l, r *Query, patterns []*Pattern) error {
 	if err := c.compileQuery(l); err != nil {
 		return err
 	}
+	if len(patterns) > 1 {
+		// define all the variables beforehand because the variables
+		// appearing only in the other alternatives should be null
+		for _, p := range patterns {
+			c.initPatternVariables(p)
+		}
+	}
 	var pc int
 	var vs [][2]int
 	for i, p := range patterns {
@@ -568,6 +575,25 @@ func (c *compiler) compileBind(l, r *Query, patterns []*Pattern) error {
 		c.append(&code{op: opexpend})
 	}
 	return c.compileQuery(r)
+}
+
+func (c *compiler) initPatternVariables(p *Pattern) {
+	if p.Name != "" {
+		c.append(&code{op: oppush, v: nil})
+		c.append(&code{op: opstore, v: c.pushVariable(p.Name)})
+	}
+	for _, p := range p.Array {
+		c.initPatternVariables(p)
+	}
+	for _, kv := range p.Object {
+		if kv.Key != "" && kv.Key[0] == '$' {
+			c.append(&code{op: oppush, v: nil})
+			c.append(&code{op: opstore, v: c.pushVariable(kv.Key)})
+		}
+		if kv.Val != nil {
+			c.initPatternVariables(kv.Val)
+		}
+	}
 }
 
 func (c *compiler) compilePattern(vs [][2]int, p *Pattern) ([][2]int, error) {
